@@ -476,3 +476,57 @@ func VH_SEQ_V2Conservation() {
 	vh.Assert(vh.And(ok, !under, created == in.Parent.SiacoinOutput.Value), "v2 transaction does not conserve siacoins")
 	vh.Reach("end")
 }
+
+// v2 siafund claim after a contract was formed earlier in the same block: the
+// claim uses the pool as it stands at that point of the block
+func VH_SEQ_V2SiafundClaimRunningPool() {
+	_, s := vhWorld("w")
+	vh.Assume(s.childHeight() >= s.Network.HardforkV2.AllowHeight)
+	ms := NewMidState(s)
+	// t1: one input funds a new contract
+	var t1 types.V2Transaction
+	t1.SiacoinInputs = make([]types.V2SiacoinInput, 1)
+	t1.FileContracts = make([]types.V2FileContract, 1)
+	vh.Fill("t1", &t1)
+	in := &t1.SiacoinInputs[0]
+	vhProof("in.proof", &in.Parent.StateElement, 0)
+	in.Parent.ID = vh.GenuineID("in.sc0")
+	in.SatisfiedPolicy = types.SatisfiedPolicy{Policy: types.PolicyThreshold(0, nil)}
+	vh.Assume(in.Parent.SiacoinOutput.Value.Hi < 1<<56)
+	if ValidateV2Transaction(ms, t1) != nil {
+		return
+	}
+	ms.ApplyV2Transaction(t1)
+	poolNow := ms.siafundTaxRevenue
+	// t2: spend a siafund output
+	var t2 types.V2Transaction
+	t2.SiafundInputs = make([]types.V2SiafundInput, 1)
+	t2.SiafundOutputs = make([]types.SiafundOutput, 1)
+	vh.Fill("t2", &t2)
+	sf := &t2.SiafundInputs[0]
+	vhProof("sf.proof", &sf.Parent.StateElement, 1)
+	sf.Parent.ID = vh.GenuineID("sf.sf0")
+	sf.SatisfiedPolicy = types.SatisfiedPolicy{Policy: types.PolicyThreshold(0, nil)}
+	vh.Assume(vh.And(sf.Parent.SiafundOutput.Value <= 10000, sf.Parent.ClaimStart.Cmp(s.SiafundTaxRevenue) <= 0))
+	if ValidateV2Transaction(ms, t2) != nil {
+		return
+	}
+	ms.ApplyV2Transaction(t2)
+	diff, under := poolNow.SubWithUnderflow(sf.Parent.ClaimStart)
+	vh.Assert(!under, "claim start beyond the pool")
+	want, ovf := diff.Div64(10000).Mul64WithOverflow(sf.Parent.SiafundOutput.Value)
+	found := false
+	for _, d := range ms.sces {
+		if d.SiacoinElement.ID == sf.Parent.ID.V2ClaimOutputID() {
+			found = true
+			vh.Assert(vh.And(!ovf, d.SiacoinElement.SiacoinOutput.Value == want), "v2 siafund claim does not pay the share of the tax collected up to this point of the block")
+		}
+	}
+	vh.Assert(found, "no claim output created")
+	for _, d := range ms.sfes {
+		if d.Created {
+			vh.Assert(d.SiafundElement.ClaimStart == poolNow, "new siafund output does not start claiming at the current pool")
+		}
+	}
+	vh.Reach("end")
+}
